@@ -17,14 +17,16 @@ GEN = []
 REQUIRED_THEOREMS = ['weekday_candidates', 'monthday_candidates_partial', 'monthday_candidates_fixed',
                      'monthday_fails_with_time_of_day', 'feb29_candidates_nonleap_reference',
                      'feb29_candidates_leap_reference_partial', 'feb29_fails_with_time_of_day',
-                     'feb29_fails_next_to_century']
+                     'feb29_fails_next_to_century', 'written_day_partial', 'written_day_past_is_next_year',
+                     'written_day_past_fails', 'written_day_fixed']
 RULE = ('unit: generate_dates over all 366 (month, day) x boundary reference days (month ends/starts, leap days, year '
         'boundaries, ISO week transitions, all weekdays; thorough: + every 7th day of 1996-2024 and every 2nd of 2087-2090) x times '
         '{00:00:00, 14:30:00, 23:59:59}, also with an explicit year and invalid days; bare weekday branch over every day '
         'of 1950..2090 x all spellings of the culture map; pipeline: month-day layouts (`may 10`, `10 may`, `may 10th`, '
         '`5/10`, `the 10th of may`, 3-letter months) and weekday names x boundary-first references incl. stated day == '
         'reference day, day before/after, 29 February from leap and non-leap years; non-trivial = distinct (expression, '
-        'reference) with two candidates')
+        'reference) with two candidates. contracts/C09.json: the month-day and weekday expressions the cross-platform Specs '
+        'contain for es-es, es-mx, fr-fr, pt-br, it-it, de-de, nl-nl, zh-cn, en-us x references around the stated day')
 ASSUMPTIONS = ['English culture only at pipeline level (generate_dates and the weekday branch are culture independent)',
                'the order of the two values (past first) is the contract of BaseMergedParser._date_time_resolution; it '
                'is monitored here, modelled by C11']
@@ -36,7 +38,8 @@ MONTHS = ['january', 'february', 'march', 'april', 'may', 'june', 'july', 'augus
 FINGERPRINTS = {'DateUtils.generate_dates': 'c706d2bf74004202', 'DateUtils.safe_create_from_value': '7911b510a7fb4914',
                 'DateUtils.is_valid_date': 'b009b164560df4ab', 'DateUtils.is_leap_year': '87db2a4ba7fd2f97',
                 'DateUtils.this': '6ae1c138c40e9f11', 'DateUtils.next': 'cf69080177d11982',
-                'BaseDateParser.parse_implicit_date': '4f2120247cbf4084'}
+                'BaseDateParser.parse_implicit_date': '4f2120247cbf4084',
+                'BaseDateParser.parse_number_with_month': 'a13884443e9be06a'}
 EXPLANATION = ('Lean theorems about the model of generate_dates / the bare-weekday branch (every reference, no bound) + '
                'correspondence of that model with the working tree (unit + pipeline) + the property computed '
                'independently on recognize_datetime output. A tree that follows the repaired variant of generate_dates '
@@ -180,6 +183,37 @@ def unit_bare_weekday(ctx, days):
     ctx.sample({'op': lines[3], 'expression': meta[3], 'implementation': impl[3]})
 
 
+WRITTEN = [('january first', 1, 1), ('february twenty second', 2, 22), ('may twenty nine', 5, 29),
+           ('december thirty first', 12, 31), ('july fourth', 7, 4), ('may twenty one', 5, 21)]
+
+
+def unit_number_with_month(ctx, days):
+    """BaseDateParser.parse_number_with_month (month + spelled-out day, no year) called directly."""
+    from recognizers_date_time.date_time.english.common_configs import EnglishCommonDateTimeParserConfiguration
+    dp = EnglishCommonDateTimeParserConfiguration().date_parser
+    lines, impl, meta = [], [], []
+    for i, d0 in enumerate(days):
+        for text, m, d in WRITTEN:
+            for R in (at(d0, calcorr.TIMES[i % 3]),):
+                lines.append('du.nwm\t%s\t%d\t%d' % (ref_fields(R), m, d))
+
+                def run():
+                    x = dp.parse_number_with_month(text, R)
+                    return '%s\t%s\t%s' % (x.timex, fmt_dt(x.future_value), fmt_dt(x.past_value)) if x.success else 'no'
+                impl.append(guarded(run))
+                meta.append(text)
+    model = common.driver(lines)
+    ctx.count('parse_number_with_month', len(lines))
+    bad = 0
+    for l, e, a, b in zip(lines, meta, impl, model):
+        if a != b:
+            bad += 1
+            if bad <= 3:
+                ctx.report('correspondence', 'number-with-month', '%s (%r): implementation %s, model %s' % (l, e, a, b),
+                           failing_input={'op': l, 'expression': e, 'implementation': a, 'model': b})
+    ctx.sample({'op': lines[0], 'expression': meta[0], 'implementation': impl[0]})
+
+
 # ------------------------------------------------------------------ pipeline level
 
 def layouts(m, d, k):
@@ -218,36 +252,75 @@ def build_cases(ctx):
     return cases
 
 
+def contract_cases(ctx):
+    """The expressions of contracts/C09.json (every culture, the culture's own words) x references around the stated
+    day (day before / same day at 00:00:00 and with a time of day / day after, several years) + seeded references."""
+    contract = calcorr.load_contract('C09')['cultures']
+    cases = []
+    for culture in sorted(contract):
+        r = ctx.rng('contract-' + culture)
+        n_seed = 40 if ctx.thorough else 10
+        for e in contract[culture]:
+            fam, par = e['family'], e['params']
+            refs = []
+            if fam == 'monthday':
+                m, d = par
+                par = (m, d)
+                for y in ((2019, 2020, 2021, 2000, 2088) if ctx.thorough else (r.choice([2019, 2021, 2023]), 2020)):
+                    if d <= calendar.monthrange(y, m)[1]:
+                        base = dt.date(y, m, d)
+                        refs += [at(base - dt.timedelta(days=1), (23, 59, 59)), at(base, (0, 0, 0)), at(base, (14, 30, 0)),
+                                 at(base + dt.timedelta(days=1), (0, 0, 0))]
+            else:
+                base = dt.date(2020, 12, 28) + dt.timedelta(days=par - 1)          # that weekday, ISO week 53
+                refs += [at(base - dt.timedelta(days=1), (23, 59, 59)), at(base, (0, 0, 0)), at(base, (14, 30, 0)),
+                         at(base + dt.timedelta(days=1), (0, 0, 0))]
+            refs += [at(x, calcorr.TIMES[i % 3]) for i, x in enumerate(calcorr.seeded_days(r, n_seed))]
+            for R in refs:
+                cases.append((e['text'], R, 'monthday' if fam == 'monthday' else 'weekday', par, culture, e.get('level') == 'model', e.get('input')))
+    return cases
+
+
 def pipeline(ctx):
-    cases = build_cases(ctx)
-    results = calcorr.run_pipeline([(c[0], c[1]) for c in cases])
+    cases = [c + ('en-us', True, None) for c in build_cases(ctx)] + contract_cases(ctx)
+    results = calcorr.run_pipeline([((c[0], c[4]), c[1]) for c in cases])
+    carried = calcorr.retry_in_carrier(cases, results, [c[6] for c in cases])
     mlines = []
-    for expr, R, fam, par in cases:
+    unrecognized = set()
+    for expr, R, fam, par, cul, dem, _car in cases:
         if fam == 'monthday':
             mlines.append('du.md\t%s\t%d\t%d' % (ref_fields(R), par[0], par[1]))
         else:
             mlines.append('du.bare\t%s\t%d' % (ref_fields(R), par % 7))
     answers = common.driver(mlines)
     fixed_ans = common.driver([l.replace('du.md\t', 'du.mdfixed\t', 1) if l.startswith('du.md\t') else l for l in mlines])
-    for (expr, R, fam, par), res, ans, fans in zip(cases, results, answers, fixed_ans):
-        ctx.count('pipeline:' + fam)
-        ent = calcorr.whole_entity(res, expr)
+    nwm_ans = common.driver([l.replace('du.md\t', 'du.nwm\t', 1) if l.startswith('du.md\t') else l for l in mlines])
+    for ci, ((expr, R, fam, par, cul, dem, _car), res, ans, fans) in enumerate(zip(cases, results, answers, fixed_ans)):
+        ctx.count('pipeline:%s:%s' % (cul, fam))
+        ent = calcorr.whole_entity(res, expr) or carried.get(ci)
         got = ent[4] if ent else None
         if fam == 'weekday-abbr' and got is None:
             continue            # an abbreviation the extractor does not accept on its own: nothing is claimed
-        want = oracle_monthday(par[0], par[1], R) if fam == 'monthday' else oracle_weekday(par, R)
+        if got is None and not dem:
+            unrecognized.add('%s: %s' % (cul, expr))
+            continue            # text known from parser-level Specs only: the extractor is not bound to find it on its own
+        want = calcorr.c09_oracle('monthday' if fam == 'monthday' else 'weekday', par, R)
         mv = model_values(ans)
         if got is not None and len(got) == 2:
             ctx.nontriv((expr, str(R)))
-        fi = {'op': 'recognize_datetime', 'query': expr, 'culture': 'en-us', 'reference': R.strftime('%Y-%m-%d %H:%M:%S'),
+        fi = {'op': 'recognize_datetime', 'query': expr, 'culture': cul, 'reference': R.strftime('%Y-%m-%d %H:%M:%S'),
               'family': fam, 'implementation': got if ent else res, 'property_expects': want, 'model': mv}
         if got != want:
             same_day = fam == 'monthday' and (par[0], par[1]) == (R.month, R.day) and (R.hour, R.minute, R.second) != (0, 0, 0)
             if same_day and got == mv:
                 sig = 'monthday-reference-time-of-day'
+            elif fam == 'monthday' and got == model_values(nwm_ans[ci]):
+                sig = 'written-day-past-year-plus-one'      # the parse_number_with_month branch (spelled-out day)
+            elif got is None:
+                sig = 'unrecognized-%s-%s' % (cul, fam)
             else:
-                sig = 'no-year-%s' % fam
-            ctx.report('property', sig, '%r at %s: got %r, the property states %r' % (expr, fi['reference'], got, want),
+                sig = 'no-year-%s' % fam if cul == 'en-us' else 'no-year-%s-%s' % (cul, fam)
+            ctx.report('property', sig, '%r (%s) at %s: got %r, the property states %r' % (expr, cul, fi['reference'], got, want),
                        failing_input=fi, property_fails=True)
         elif got != mv and fam == 'monthday' and [got[1]['value'], got[0]['value']] == [pad_date(x) for x in fans.split(';')]:
             pass        # the tree follows the repaired variant (comparison on dates), which satisfies the property
@@ -257,9 +330,11 @@ def pipeline(ctx):
     ctx.sample({'query': cases[0][0], 'reference': str(cases[0][1]), 'implementation': results[0]})
     ctx.sample({'query': cases[-1][0], 'reference': str(cases[-1][1]), 'implementation': results[-1]})
     ctx.extra['pipeline_cases'] = len(cases)
+    ctx.extra['unrecognized_contract_expressions'] = sorted(unrecognized)
 
 
 def correspond(ctx):
+    calcorr.cap_reports(ctx)
     common.setup_repo_imports()
     import warnings
     warnings.simplefilter('ignore')
@@ -271,7 +346,8 @@ def correspond(ctx):
                                'DateUtils.safe_create_from_value': DateUtils.safe_create_from_value,
                                'DateUtils.is_valid_date': DateUtils.is_valid_date, 'DateUtils.is_leap_year': DateUtils.is_leap_year,
                                'DateUtils.this': DateUtils.this, 'DateUtils.next': DateUtils.next,
-                               'BaseDateParser.parse_implicit_date': BaseDateParser.parse_implicit_date}, FINGERPRINTS)
+                               'BaseDateParser.parse_implicit_date': BaseDateParser.parse_implicit_date,
+                               'BaseDateParser.parse_number_with_month': BaseDateParser.parse_number_with_month}, FINGERPRINTS)
     calcorr.calendar_unit(ctx, 'c09')
     bdays = calcorr.boundary_days()
     r = ctx.rng('unit')
@@ -280,4 +356,5 @@ def correspond(ctx):
         gen_days = gen_days + calcorr.all_days(1996, 2024)[::7] + calcorr.all_days(2087, 2090)[::2]
     unit_generate_dates(ctx, DateUtils, gen_days)
     unit_bare_weekday(ctx, calcorr.all_days())
+    unit_number_with_month(ctx, bdays + calcorr.all_days(2019, 2021))
     pipeline(ctx)
